@@ -14,7 +14,8 @@
    All statements: every font (tfont: any Z, normalised as SetFont does), both modes, every
    spacing >= 0, all sizes >= 1, every cursor, every string; no bound on string length. *)
 From RP Require Import Lib.Base Lib.Utf8 Model.Mono Spec.Clip Spec.TextBox
-  Proofs.PixelProofs Proofs.OpsProofs Proofs.TextGlyph Proofs.TextVal Proofs.TextRender Proofs.TextLaws.
+  Proofs.PixelProofs Proofs.OpsProofs Proofs.TextGlyph Proofs.TextVal Proofs.TextRender Proofs.TextLaws Proofs.TextOracle.
+From RP Require Run.C20.
 
 (* ---------- (1) the metric box bounds the ink ----------
    For ANY canvas, bounding box, start buffer and cursor (no "large enough" needed: clipping only
@@ -168,6 +169,29 @@ Print Assumptions c20_str_width_sum.
 Theorem c20_font_tables_ok : font_reads_ok = true.
 Proof. exact font_reads_ok_true. Qed.
 Print Assumptions c20_font_tables_ok.
+
+(* ---------- the oracle evaluates these very predicates ----------
+   Run/C20.v reads the implementation's buffers through an indexed view (rows); it returns the
+   same pixels as the list view of the theorems, so its verdicts are box_law / translation_law /
+   scale_law / glyph_law on the observed buffers. *)
+Theorem c20_oracle_pixel_view : forall wib d c r, 0 < wib -> 0 <= c < 8 * wib -> 0 <= r ->
+  Run.C20.fpx (Run.C20.rows_of wib d) c r = px wib d c r.
+Proof. exact fpx_px. Qed.
+Print Assumptions c20_oracle_pixel_view.
+
+Theorem c20_oracle_box : forall W H d0 d1 cx cy strw sh lineh, 0 < W ->
+  let wib := (W + 7) / 8 in
+  box_law_p (8 * wib) H (Run.C20.fpx (Run.C20.rows_of wib d0)) (Run.C20.fpx (Run.C20.rows_of wib d1)) cx cy strw sh lineh
+  = box_law W H wib d0 d1 cx cy strw sh lineh.
+Proof. exact oracle_box. Qed.
+Print Assumptions c20_oracle_box.
+
+Theorem c20_oracle_scale : forall W H dA dC cx cy h v, 0 <= W ->
+  let wib := (W + 7) / 8 in
+  scale_law_p W H (Run.C20.fpx (Run.C20.rows_of wib dA)) (Run.C20.fpx (Run.C20.rows_of wib dC)) cx cy h v
+  = scale_law W H wib dA dC cx cy h v.
+Proof. exact oracle_scale. Qed.
+Print Assumptions c20_oracle_scale.
 
 (* ---------- non-vacuity ---------- *)
 (* a string with CR, >127 and an invalid UTF-8 byte satisfies every hypothesis of (1)-(3b) at
